@@ -140,9 +140,35 @@ Definition unimock_params_empty (ti : trait_indirection) (mock_api : option stri
 Definition mockall_params : toks := abs_path ["mockall"; "automock"].
 
 (** ** trait_codegen.rs *)
+Definition pub_super : vis := [TId "pub"; TG Paren [TId "super"]].
+
+(** the trait of an entraited module is defined one module level below the invocation site: a visibility
+    relative to that site ([pub(self)], [pub(super)], [pub(in super::..)], none) is written one level deeper *)
+Definition module_vis (v : vis) : vis :=
+  match v with
+  | [] => pub_super
+  | [p; TG Paren inner] =>
+      let path := match inner with
+                  | t :: rest => if is_id "in" t then rest else inner
+                  | [] => inner
+                  end in
+      match path with
+      | [] => v
+      | t :: rest =>
+          if is_id "self" t then
+            match rest with
+            | [] => [p; TG Paren [TId "super"]]
+            | _ => [p; TG Paren ([TId "in"; TId "super"] ++ rest)]          (* self::path -> super::path *)
+            end
+          else if is_id "super" t then [p; TG Paren ([TId "in"; TId "super"] ++ path_sep ++ path)]
+          else v
+      end
+  | _ => v
+  end.
+
 Definition trait_visibility (mode : input_mode) (v : vis) : vis :=
   match mode with
-  | MModule | MImplBlock => match v with [] => [TId "pub"; TG Paren [TId "super"]] | _ => v end
+  | MModule | MImplBlock => module_vis v
   | _ => v
   end.
 
